@@ -77,6 +77,74 @@ claim(
     "DESIGN.md section 3, C12",
 )
 
+claim(
+    "C02", "exploration",
+    "Hypothesis-generated index cubes (0..4 dims, 1..3 axes, any common, inferred/exact/padded shape, boundary extents) vs a pure-Python per-row group-by",
+    "Random dimension lists built by an independent index constructor are counted by ccube and compared cell by cell "
+    "(values, missing cells, block sums) with a brute-force contingency table; a quarter of the cubes have 4 dimensions "
+    "so that nested margin differencing is exercised.",
+    "Indexes come from vfw.cubes.build_index; explicit shapes cover data and common value.",
+    "DESIGN.md section 3, C02",
+)
+claim(
+    "C03", "exploration",
+    "three-way differential testing: ccube vs xcube vs brute-force group-by over generated facts / weights / policies",
+    "Random cubes x {count, valid_count, sum, mean} x fact forms x weight forms x policies x report formats are evaluated by "
+    "the index cube, by the array cube on the dense data in a drawn integer dtype, and by a pure-Python per-cell "
+    "computation with math.fsum; missing cells compared exactly, values to 1e-12 (exact dyadic mode) or 1e-9 x total.",
+    "Dyadic facts/weights make all sums exact so that any difference is a real one; rough floats use the property's tolerance.",
+    "DESIGN.md section 3, C03",
+)
+claim(
+    "C04", "exploration",
+    "generated cubes evaluated under both policies x three report formats x both cube types, rule oracle + cross-format agreement",
+    "Every generated case is evaluated 12 times (2 policies x 3 formats x 2 cube types); the missing sets of the NaN and "
+    "pair formats are compared with the brute-force rule and all formats must agree on missing cells and values.",
+    "valid_count + plain value + propagate is excluded as the property states.",
+    "DESIGN.md section 3, C04",
+)
+claim(
+    "C05", "exploration",
+    "metamorphic testing: exhaustive re-encoding of every dimension with every possible common value per generated cube",
+    "For each generated cube and aggregate call, every dimension is re-encoded with every category 0..extent as common "
+    "(built directly, via shift_common(v), and re-normalised) and the output must not change.",
+    "Pure metamorphic relation (no reference model); explicit shapes are enlarged to cover the new common value.",
+    "DESIGN.md section 3, C05",
+)
+claim(
+    "C13", "exploration",
+    "metamorphic testing: every extra-axis block of a generated multi-axis cube vs the cube of the one-axis slices",
+    "Cubes with 2- and 3-axis dimensions of pairwise different extra extents are evaluated on both cube types; the result "
+    "shape and every block result[j1..jm] are compared with the cube built from the corresponding one-axis slices.",
+    "Slices are rebuilt by the independent constructor, not by iindex.sliced().",
+    "DESIGN.md section 3, C13",
+)
+claim(
+    "C14", "exploration",
+    "generated one-axis dimension lists; multiset of delivered (coords, rowids) vs a row-scan oracle",
+    "The (coordinates, row ids) pairs handed to callbacks by walk (one callback, several callbacks, interactions()) are "
+    "compared as a multiset with the set computed by scanning rows.",
+    "Dimensions are one-axis indexes as the property states.",
+    "DESIGN.md section 3, C14",
+)
+claim(
+    "C17", "exploration",
+    "generated cubes with shared argument objects: deep before/after snapshots, permutation / repetition / re-use relations",
+    "Lists of 2..4 aggregate-function objects sharing one fact and one weight object are computed together (permuted), "
+    "repeated, re-used on a second cube and alone; results must coincide and every argument must be byte-identical afterwards.",
+    "Snapshots compare dtype, shape and bytes; dict order is ignored.",
+    "DESIGN.md section 3, C17",
+)
+claim(
+    "C18", "exploration",
+    "generated array cubes vs per-cell textbook statistics written out in pure Python; metamorphic weight rescaling for weighted quantiles",
+    "stddev, quantile, min, max, covariance and correlation are compared cell by cell with explicit formulas over the rows "
+    "of the cell; weighted quantiles are checked by their missing rule, bounds and invariance under rescaling of weights; "
+    "both report formats must agree and valid cells must be finite.",
+    "Mathematically undefined entries (fewer than 2 usable rows, zero variance, zero weight sum) are not compared.",
+    "DESIGN.md section 3, C18",
+)
+
 NOT_YET = "check not built yet in this session (work in progress; see DESIGN.md section 9 build order)"
 
 ALL = ["C%02d" % i for i in range(1, 21)]
